@@ -613,9 +613,9 @@ def rule_r8(repo, run):
     if opt is None:
         raise AnalysisError("C08.R8: add_abstract_interface no longer names the interface from an option template")
     default = None
-    for k in ast.walk(am.tree):
-        if isinstance(k, ast.keyword) and k.arg == opt and pyflow.const_str(k.value):
-            default = pyflow.const_str(k.value)
+    for key, val in pyflow.table_fields(am.tree):
+        if key == opt and pyflow.const_str(val):
+            default = pyflow.const_str(val)
     if default is None:
         raise AnalysisError("C08.R8: default of %s not found in ast.py" % opt)
     stores = [a for a in ast.walk(fn) if isinstance(a, ast.Assign) and isinstance(a.targets[0], ast.Subscript)
